@@ -33,6 +33,14 @@ func (w *driveWorld) runBig(maxN int) {
 	}
 	w.emit(newEv("reset", w.h, w.i))
 	w.flush()
+	if w.h == 0 {
+		if pan := protect(w.bigBatch); pan != "" {
+			w.fail([]string{"C04"}, "verifiers", "panic", "the big-batch verification panicked: "+pan)
+		}
+		if len(w.fails) > 0 {
+			return
+		}
+	}
 	n0 := maxN * 2 / 3
 	pan := protect(func() {
 		// 1. one huge block of additions
@@ -290,6 +298,49 @@ func (w *driveWorld) bigObserve() {
 			return
 		}
 	}
+	// which positions are missing for proving two more leaves, given a proof of hundreds: the
+	// stand-alone function against a map forest created from the roots that ingested that proof
+	if len(lv) >= 700 {
+		held := append([]int{}, lv...)
+		w.rng.Shuffle(len(held), func(a, b int) { held[a], held[b] = held[b], held[a] })
+		want2 := held[500:502]
+		held = held[:500]
+		sort.Ints(held)
+		hh := w.hashes(held)
+		hp, err := pol.P.Prove(hh)
+		if err != nil {
+			w.fail([]string{"C02"}, "pollard", "prove.error", fmt.Sprintf("Prove of %d live leaves failed: %v", len(held), err))
+			return
+		}
+		var des []uint64
+		for _, s := range want2 {
+			p, _ := pol.P.GetLeafPosition(w.sy.H(leafTerm(s)))
+			des = append(des, p)
+		}
+		sort.Slice(des, func(a, b int) bool { return des[a] < des[b] })
+		var a, b []uint64
+		pan := protect(func() {
+			a = utreexo.GetMissingPositions(w.n, append([]uint64{}, hp.Targets...), append([]uint64{}, des...))
+			m := utreexo.NewMapPollardFromRoots(append([]Hash{}, w.stump.Roots...), w.n, false)
+			if err := m.Ingest(hh, hp); err != nil {
+				w.fail([]string{"C14"}, "map.fromroots", "error", "Ingest of a proof of 500 leaves failed: "+err.Error())
+				return
+			}
+			b = m.GetMissingPositions(append([]uint64{}, des...))
+		})
+		if pan != "" {
+			w.fail([]string{"C14"}, "proofops", "panic", "GetMissingPositions panicked: "+pan)
+			return
+		}
+		if len(w.fails) > 0 {
+			return
+		}
+		if !eqU64s(sortedU64(a), sortedU64(b)) {
+			w.fail([]string{"C14"}, "proofops", "missing.disagree", fmt.Sprintf("GetMissingPositions(%d leaves, a proof of 500 targets, %v) = %v but a map forest that ingested that proof lacks %v", w.n, des, sortedU64(a), sortedU64(b)))
+			return
+		}
+		w.calls += 3
+	}
 	// serialization round trip of the partial forest (hundreds of remembered leaves, thousands of nodes)
 	var buf bytes.Buffer
 	if _, err := mp.M.Write(&buf); err != nil {
@@ -334,4 +385,85 @@ func (w *driveWorld) flushBig() {
 		w.out.Encode(f())
 	}
 	w.pending = nil
+}
+
+// bigBatch (once per run): verification of batches of more than 65 536 claims on a
+// forest of 2^17 leaves.  The honest batch must be accepted; the same batch with one
+// false claim - a duplicated target carrying a fresh hash (at the end, at the front,
+// in the middle) or one replaced hash - must be refused by every verifier.
+func (w *driveWorld) bigBatch() {
+	const N = 1 << 17
+	leaves := make([]utreexo.Leaf, N)
+	hs := make([]Hash, N)
+	for i := range leaves {
+		hs[i] = leafHash("verif-bigbatch", uint64(i))
+		leaves[i] = utreexo.Leaf{Hash: hs[i]}
+	}
+	pol := utreexo.NewAccumulator()
+	var stump utreexo.Stump
+	mf := utreexo.NewMapPollard(true)
+	if err := pol.Modify(leaves, nil, utreexo.Proof{}); err != nil {
+		return
+	}
+	if _, err := stump.Update(nil, hs, utreexo.Proof{}); err != nil {
+		return
+	}
+	if err := mf.Modify(leaves, nil, utreexo.Proof{}); err != nil {
+		return
+	}
+	base := hs[:N/2]
+	pr, err := pol.Prove(base)
+	if err != nil {
+		w.fail([]string{"C02"}, "pollard", "prove.error", fmt.Sprintf("Prove of %d leaves failed: %v", len(base), err))
+		return
+	}
+	fake := leafHash("verif-bigbatch-fake", 1)
+	type batch struct {
+		name  string
+		hs    []Hash
+		tg    []uint64
+		false bool
+	}
+	cp := func(extraAt int, t uint64, h Hash) ([]Hash, []uint64) {
+		bh := make([]Hash, 0, len(base)+1)
+		bt := make([]uint64, 0, len(base)+1)
+		bh = append(bh, base[:extraAt]...)
+		bt = append(bt, pr.Targets[:extraAt]...)
+		bh = append(bh, h)
+		bt = append(bt, t)
+		bh = append(bh, base[extraAt:]...)
+		bt = append(bt, pr.Targets[extraAt:]...)
+		return bh, bt
+	}
+	var batches []batch
+	batches = append(batches, batch{"the honest batch", base, pr.Targets, false})
+	for _, at := range []int{len(base), 0, 40000} {
+		bh, bt := cp(at, pr.Targets[12345], fake)
+		batches = append(batches, batch{fmt.Sprintf("the honest batch plus a second claim for target 12345 with a fresh hash, inserted at index %d", at), bh, bt, true})
+	}
+	rh := append([]Hash{}, base...)
+	rh[50000] = fake
+	batches = append(batches, batch{"the honest batch with the hash of claim 50000 replaced by a fresh value", rh, pr.Targets, true})
+	for _, b := range batches {
+		p := utreexo.Proof{Targets: b.tg, Proof: pr.Proof}
+		res := map[string]error{}
+		pan := protect(func() {
+			_, e := utreexo.Verify(stump, b.hs, p)
+			res["Verify"] = e
+			res["Pollard.Verify"] = pol.Verify(b.hs, p, false)
+			res["MapPollard.Verify"] = mf.Verify(b.hs, p, false)
+		})
+		w.calls += 3
+		if pan != "" {
+			w.fail([]string{"C04"}, "verifiers", "panic", fmt.Sprintf("verifying %s (%d claims) panicked: %s", b.name, len(b.hs), pan))
+			continue
+		}
+		for api, e := range res {
+			if b.false && e == nil {
+				w.fail([]string{"C03"}, api, "unsound", fmt.Sprintf("%s accepted %s (%d claims, forest of %d leaves)", api, b.name, len(b.hs), N))
+			} else if !b.false && e != nil {
+				w.fail([]string{"C02"}, api, "verify.reject", fmt.Sprintf("%s rejects %s (%d claims): %v", api, b.name, len(b.hs), e))
+			}
+		}
+	}
 }
